@@ -750,3 +750,12 @@ def fx_markcount(fx):
                                       only=lambda fid: "markfx::OkMap" in fid)
     return nb == 1 and no == 1 and mb == 1 and mo == 2 and _fires(c, "BadMap::<L>::bad_build") and _fires(c, "BadMap::<L>::bad_free") \
         and not _fires(c, "markfx::OkMap")
+
+
+def fx_keylimit(fx):
+    from rules import sibling
+    c = _ctx()
+    nb = sibling.key_length_limits(c, fx, "src/lib.rs", only=lambda fid: "keylimfx::bad::" in fid)
+    no = sibling.key_length_limits(c, fx, "src/lib.rs", only=lambda fid: "keylimfx::ok::" in fid)
+    return nb == 3 and no == 3 and _fires(c, "keylimfx::bad::contains") and not _fires(c, "keylimfx::ok::") and \
+        not _fires(c, "keylimfx::bad::insert")
